@@ -388,6 +388,14 @@ func runC17(c *Ctx) {
 				cur = d
 			}
 			_, freshIsLit := argBehindParam(write, fresh).(*ssa.Alloc)
+			if !freshIsLit {
+				// built by a constructor helper of the package: every value it returns is an entry allocated in it
+				if call, ok := argBehindParam(write, fresh).(*ssa.Call); ok {
+					if h := call.Call.StaticCallee(); h != nil && h.Blocks != nil && h.Pkg == write.Pkg {
+						freshIsLit = returnsFreshAlloc(h)
+					}
+				}
+			}
 			// every iteration works on a value atomically loaded from the slot the swap targets: either
 			// a loop-carried variable all of whose definitions are such loads (load before the loop +
 			// reload after a failed swap), or a load made inside the loop before the comparison
@@ -716,4 +724,30 @@ func entryRoots(v ssa.Value, nodeT *types.Named) []ssa.Value {
 	}
 	walk(v, 0)
 	return roots
+}
+
+// returnsFreshAlloc: every return of f hands out an object allocated in f itself.
+func returnsFreshAlloc(f *ssa.Function) bool {
+	n := 0
+	for _, b := range f.Blocks {
+		ret, ok := b.Instrs[len(b.Instrs)-1].(*ssa.Return)
+		if !ok {
+			continue
+		}
+		if len(ret.Results) != 1 {
+			return false
+		}
+		var defs []ssa.Value
+		resolveDefs(ret.Results[0], map[ssa.Value]bool{}, &defs)
+		for _, d := range defs {
+			if al, ok := d.(*ssa.Alloc); !ok || !al.Heap {
+				return false
+			}
+		}
+		if len(defs) == 0 {
+			return false
+		}
+		n++
+	}
+	return n > 0
 }
